@@ -30,6 +30,7 @@ class Prof:
     wf_subst: bool = True  # only non-redundant ESubst/SSubst nodes (docs: the others are ill-formed terms)
     mv_shared: bool = False  # all occurrences of a metavariable id carry the same constraint lists
     raw_inst: bool = False  # Instantiate(pattern, {k: value}) with an arbitrary pattern (partial instantiation)
+    nt_key_orders: bool = False  # binary notation applications also built as a completed partial application (keys 1, 0)
 
 
 CONCRETE = Prof()
@@ -176,6 +177,11 @@ def gen(ctx: Any, n: int, prof: Prof, meta_only: bool = False) -> Any:
         return P.Instantiate(body, frozendict({o[2][0]: gen(ctx, o[1][1], prof), o[2][1]: gen(ctx, o[1][2], prof)}))
     if k == 'nt':
         args = [gen(ctx, s, prof) for s in o[2]]
+        if prof.nt_key_orders and o[1].arity == 2 and ctx.choose(2, 'key order') == 1:
+            # the same application, reached by binding the second argument first: Instantiate(definition, {1: b, 0: a})
+            from frozendict import frozendict
+
+            return P.Instantiate(o[1].definition, frozendict({1: args[1]})).instantiate({0: args[0]})
         return o[1](*args)
     raise AssertionError(k)
 
@@ -374,3 +380,28 @@ def id_shift(p: Any, d: int = 1) -> Any:
     if isinstance(p, P.Instantiate):
         return P.Instantiate(p.pattern, frozendict({k: id_shift(v, d) for k, v in p.inst.items()}))
     return p
+
+
+def key_swap(p: Any) -> Any:
+    """sibling for warm-up calls: in every Instantiate node with two or more entries the values keep their positions
+    and the keys are rotated ({k0: a, k1: b} -> {k1: a, k0: b}): same body, same value tuple, different pattern"""
+    from frozendict import frozendict
+    from proof_generation import pattern as P
+
+    if isinstance(p, (P.Implies, P.App)):
+        return type(p)(key_swap(p.left), key_swap(p.right))
+    if isinstance(p, (P.Exists, P.Mu)):
+        return type(p)(p.var, key_swap(p.subpattern))
+    if isinstance(p, (P.ESubst, P.SSubst)):
+        return type(p)(p.pattern, p.var, key_swap(p.plug))
+    if isinstance(p, P.Instantiate):
+        ks = list(p.inst.keys())
+        vs = [key_swap(v) for v in p.inst.values()]
+        if len(ks) >= 2:
+            ks = ks[1:] + ks[:1]
+        return P.Instantiate(p.pattern, frozendict(dict(zip(ks, vs))))
+    return p
+
+
+def siblings(p: Any) -> list:
+    return [kind_swap(p), id_shift(p), key_swap(p)]
